@@ -232,6 +232,9 @@ type pgen struct {
 	r        *rand.Rand
 	wide     bool
 	allot    bool
+	// boundary: C36 variant — amounts and balances around 2^63 / 2^64, and none of the
+	// constructs with a known interpreter divergence (kept, save, portion variables)
+	boundary bool
 	feats    map[string]bool
 	decls    []string
 	vars     map[string]string
@@ -241,7 +244,13 @@ type pgen struct {
 
 func (g *pgen) feat(f string) { g.feats[f] = true }
 
+var boundaryAmounts = []string{"4611686018427387904", "9223372036854775806", "9223372036854775807", "9223372036854775808",
+	"9223372036854775809", "18446744073709551615", "18446744073709551616", "1", "2"}
+
 func (g *pgen) amount() string {
+	if g.boundary && g.r.Intn(2) == 0 {
+		return gen.Pick(g.r, boundaryAmounts)
+	}
 	switch g.r.Intn(8) {
 	case 0:
 		return "0"
@@ -266,7 +275,7 @@ func (g *pgen) account() string {
 }
 
 func (g *pgen) portion() string {
-	if g.r.Intn(6) == 0 {
+	if g.r.Intn(6) == 0 && !g.boundary {
 		name := fmt.Sprintf("por%d", len(g.decls))
 		g.decls = append(g.decls, "portion $"+name)
 		g.vars[name] = gen.Pick(g.r, []string{"1/2", "1/3", "25%", "10%"})
@@ -332,7 +341,7 @@ func (g *pgen) valueAwareSource(d int) string {
 }
 
 func (g *pgen) keptOrDest(depth, d int) string {
-	if g.r.Intn(8) == 0 {
+	if g.r.Intn(8) == 0 && !g.boundary {
 		g.feat("kept")
 		return "kept"
 	}
@@ -399,14 +408,19 @@ func (g *pgen) metaValue() string {
 	}
 }
 
-func genInterpIn(c *gen.Ctx, i int) interpIn {
+func genInterpIn(c *gen.Ctx, i int, boundary bool) interpIn {
 	r := c.R
-	g := &pgen{r: r, wide: c.Wide, allot: i%5 >= 3, feats: map[string]bool{}, vars: map[string]string{},
+	g := &pgen{r: r, wide: c.Wide, allot: i%5 >= 3, boundary: boundary, feats: map[string]bool{}, vars: map[string]string{},
 		asset: gen.Pick(r, []string{"USD/2", "COIN", "EUR"}), accounts: []string{"alice", "bob", "carol", "users:001", "dave"}}
 	in := interpIn{Vars: g.vars, Balances: map[string]map[string]string{}, Meta: map[string]map[string]string{}}
 	for _, a := range g.accounts {
 		in.Meta[a] = map[string]string{}
-		switch r.Intn(6) {
+		k := r.Intn(6)
+		if boundary && r.Intn(2) == 0 {
+			in.Balances[a] = map[string]string{g.asset: gen.Pick(r, boundaryAmounts)}
+			continue
+		}
+		switch k {
 		case 0:
 		case 1:
 			in.Balances[a] = map[string]string{g.asset: "0"}
@@ -445,7 +459,7 @@ func genInterpIn(c *gen.Ctx, i int) interpIn {
 		case k < 10:
 			g.feat("set-account-meta")
 			stmts = append(stmts, fmt.Sprintf("set_account_meta(@%s, \"k%d\", %s)", gen.Pick(r, g.accounts), r.Intn(2), g.metaValue()))
-		case k < 11 && g.allot:
+		case k < 11 && g.allot && !g.boundary:
 			g.feat("save")
 			if r.Intn(3) == 0 {
 				stmts = append(stmts, fmt.Sprintf("save [%s *] from @%s", g.asset, gen.Pick(r, g.accounts)))
@@ -509,9 +523,16 @@ func genInterpIn(c *gen.Ctx, i int) interpIn {
 }
 
 func init() {
-	gen.Register("interp", func(c *gen.Ctx) error {
+	for _, name := range []string{"interp", "interp36"} {
+		name := name
+		registerInterp(name)
+	}
+}
+
+func registerInterp(name string) {
+	gen.Register(name, func(c *gen.Ctx) error {
 		if c.Replay != "" {
-			ins, err := c.ReplayInputs("interp")
+			ins, err := c.ReplayInputs(name)
 			if err != nil {
 				return err
 			}
@@ -520,15 +541,15 @@ func init() {
 				if err := json.Unmarshal(raw, &in); err != nil {
 					return err
 				}
-				if err := c.Emit("interp", in, runInterp(in)); err != nil {
+				if err := c.Emit(name, in, runInterp(in)); err != nil {
 					return err
 				}
 			}
 			return nil
 		}
 		for i := 0; i < c.N; i++ {
-			in := genInterpIn(c, i)
-			if err := c.Emit("interp", in, runInterp(in)); err != nil {
+			in := genInterpIn(c, i, name == "interp36")
+			if err := c.Emit(name, in, runInterp(in)); err != nil {
 				return err
 			}
 		}
